@@ -4,8 +4,8 @@ from checks import c01
 
 def run(tier):
     return c01.run_jobs(tier, "C04", "c04",
-                        [("default", "fast", c01.NOJ, 2500, 60000), ("never-inline", "noinl", c01.NOJ, 2500, 60000),
-                         ("always-inline", "allinl", c01.NOJ, 2500, 60000), ("always-inline-asan", "asan", c01.NOJ, 250, 6000),
+                        [("default", "fast", c01.NOJ, 4000, 60000), ("never-inline", "noinl", c01.NOJ, 2500, 60000),
+                         ("always-inline", "allinl", c01.NOJ, 4000, 60000), ("always-inline-asan", "asan", c01.NOJ, 250, 6000),
                          ("dispatch-always-inline", "allinl", 0, 600, 15000)],
                         floor=dict(c01.FLOOR, inline_calls=50))
 
